@@ -1,4 +1,6 @@
-import AlgoVerif.Proofs.C08Cycles
+import AlgoVerif.Proofs.C08Total6
+import AlgoVerif.Proofs.C08LeftRecMain
+import AlgoVerif.Proofs.C08LeftFactorMain
 /-!
 # C08 — CFG transformations preserve the generated language (statements; proofs in `Proofs/C08*.lean`)
 
@@ -19,8 +21,10 @@ in any statement below.
 What is proved here, each for every valid grammar and every sentence (no bounds anywhere):
 
 * `EliminateEmptyProductions` (`C08_emptyfree`), `EliminateSingleProductions` (`C08_singlefree`),
-  `EliminateUnreachableProductions` (`C08_unreachable`), `EliminateCycles` (`C08_cycles`) and START
-  (`C08_cnfstart`) return a grammar with exactly the same language — both inclusions;
+  `EliminateUnreachableProductions` (`C08_unreachable`), `EliminateCycles` (`C08_cycles`), START
+  (`C08_cnfstart`), TERM (`C08_cnfterm`), BIN (`C08_cnfbin`) and `ChomskyNormalForm` (`C08_cnf`, the
+  composition START, TERM, BIN, DEL, UNIT, unreachable exactly as coded) return a grammar with exactly the
+  same language — both inclusions;
 * so does `removeNonTerminalsWithoutProductions` (`C08_prune`), the step the ε-, unit- and left-recursion
   elimination end with.
 
@@ -30,10 +34,16 @@ transformation, invariants of the Model's folds and fixpoint loops (`Proofs/C08M
 `C08Empty*.lean`): a fixpoint of a pass is closed under the rule the pass applies (DESIGN.md Appendix B), and
 everything a pass adds is justified.
 
-What is not proved (kept as full statements below; checked only by the differential harness against the
-exact bounded-language oracle, sentences up to length 6): TERM, BIN, `ChomskyNormalForm`,
-`EliminateLeftRecursion`, `LeftFactor`; and that no transformation panics or diverges on a valid hygienic
-grammar (the theorems are conditional on the Model returning `.ok`).
+* `EliminateLeftRecursion` (`C08_leftrecursion`; proofs in `Proofs/C08LeftRec*.lean`: substitution of an
+  earlier non-terminal and the Arden-style removal of immediate left recursion each preserve the language,
+  folded over the loops, composed with `EliminateCycles` and the final pruning) and `LeftFactor`
+  (`C08_leftfactoring`; `Proofs/C08LeftFactor*.lean`: folding a group of alternatives under pairwise different
+  fresh names preserves the language, lifted through `lfHead`, `lfPass` and the repeat-until-stable loop) —
+  both inclusions, for every valid grammar.
+
+What is not proved: totality of `EliminateLeftRecursion` and `LeftFactor` (their two theorems are conditional
+on the Model returning `.ok`; `LeftFactor` can end in the documented fresh-name panic, known finding
+`C08-fresh-names-exhausted`); totality of the others is `C08_*_total` below.
 -/
 open AlgoVerif AlgoVerif.Gram AlgoVerif.C08 AlgoVerif.C08.Spec
 
@@ -132,18 +142,107 @@ example : (elimCycles
     = .ok "start=S T={a,b} N={A,B,S} P={A→b; B→b; S→A a; S→A a A; S→A a B; S→A a B A; S→a; S→a A; S→a B; S→a B A}" := by
   decide
 
+/-- TERM (`eliminateNonSolitaryTerminals`) preserves the language: every fresh `aₙ` has the single production
+`aₙ → a`, so expanding it gives the original bodies back (`Language.of_expand`), and every original
+production is derivable from its image. -/
+theorem C08_cnfterm (g g' : G) (hv : Valid g) (h : cnfTerm g = .ok g') : SameLanguage g g' :=
+  fun w => cnfTerm_language h hv.wellFormed w
+
+example : (cnfTerm
+      { terms := ["a", "b"]
+        nonterms := ["S", "A"]
+        prods := [{ head := "S", body := [.term "a", .nonterm "S", .term "b", .nonterm "A"] },
+                  { head := "S", body := [.term "a"] }, { head := "A", body := [.term "b", .term "b"] }]
+        start := "S" }).map showGrammar
+    = .ok "start=S T={a,b} N={A,S,aₙ,bₙ} P={A→bₙ bₙ; S→a; S→aₙ S bₙ A; aₙ→a; bₙ→b}" := by
+  decide
+
+/-- BIN (`eliminateNonBinaryProductions`) preserves the language: the fresh `Aᵢ` of the chain
+`A → X₁ A₁, A₁ → X₂ A₂, …, Aₙ₋₂ → Xₙ₋₁ Xₙ` stands for `Xᵢ₊₁ … Xₙ`. -/
+theorem C08_cnfbin (g g' : G) (hv : Valid g) (h : cnfBin g = .ok g') : SameLanguage g g' :=
+  fun w => cnfBin_language h hv.wellFormed w
+
+set_option maxRecDepth 20000 in
+example : (cnfBin
+      { terms := ["a"]
+        nonterms := ["S", "A"]
+        prods := [{ head := "S", body := [.nonterm "A", .nonterm "S", .nonterm "A", .nonterm "A"] },
+                  { head := "S", body := [.nonterm "A"] }, { head := "A", body := [.term "a"] }]
+        start := "S" }).map showGrammar
+    = .ok "start=S T={a} N={A,S,S₁,S₂} P={A→a; S₁→S S₂; S₂→A A; S→A; S→A S₁}" := by
+  decide
+
+/-- `ChomskyNormalForm` preserves the language of every valid grammar. -/
+theorem C08_cnf (g g' : G) (hv : Valid g) (h : cnf g = .ok g') : SameLanguage g g' :=
+  fun w => cnf_language h hv.wellFormed w
+
+set_option maxRecDepth 40000 in
+example : (cnf
+      { terms := ["a", "b"]
+        nonterms := ["S", "A"]
+        prods := [{ head := "S", body := [.term "a", .nonterm "S", .term "b"] }, { head := "S", body := [.nonterm "A"] },
+                  { head := "A", body := [.term "a"] }, { head := "A", body := [] }]
+        start := "S" }).map showGrammar
+    = .ok "start=S″ T={a,b} N={S,S″,S₁,aₙ,bₙ} P={S″→a; S″→aₙ S₁; S″→ε; S₁→S bₙ; S₁→b; S→a; S→aₙ S₁; aₙ→a; bₙ→b}" := by
+  decide
+
+/-! ## totality: the transformations return, and what they return has the same language -/
+
+/-- `EliminateUnreachableProductions` returns for every grammar -/
+theorem C08_unreachable_total (g : G) : ∃ g', elimUnreachable g = .ok g' ∧ SameLanguage g g' := by
+  obtain ⟨g', h⟩ := elimUnreachable_total g
+  exact ⟨g', h, C08_unreachable g g' h⟩
+
+/-- `EliminateSingleProductions` returns for every valid grammar -/
+theorem C08_singlefree_total (g : G) (hv : Valid g) : ∃ g', elimSingle g = .ok g' ∧ SameLanguage g g' := by
+  obtain ⟨g', h⟩ := elimSingle_total hv
+  exact ⟨g', h, C08_singlefree g g' hv h⟩
+
+/-- `EliminateEmptyProductions` returns for every valid hygienic grammar -/
+theorem C08_emptyfree_total (g : G) (hv : Valid g) (hh : Hygienic g) :
+    ∃ g', elimEmpty g = .ok g' ∧ SameLanguage g g' := by
+  obtain ⟨g', h⟩ := elimEmpty_total hv hh
+  exact ⟨g', h, C08_emptyfree g g' hv h⟩
+
+/-- `EliminateCycles` returns for every valid hygienic grammar with a non-empty language -/
+theorem C08_cycles_total (g : G) (hv : Valid g) (hh : Hygienic g) (hl : ∃ w, Language g w) :
+    ∃ g', elimCycles g = .ok g' ∧ SameLanguage g g' := by
+  obtain ⟨g', h⟩ := elimCycles_total hv hh hl
+  exact ⟨g', h, C08_cycles g g' hv h⟩
+
+/-- TERM returns for every valid hygienic grammar -/
+theorem C08_cnfterm_total (g : G) (hv : Valid g) (hh : Hygienic g) :
+    ∃ g', cnfTerm g = .ok g' ∧ SameLanguage g g' := by
+  obtain ⟨g', h⟩ := cnfTerm_total hv.wellFormed (hyg_alphaFree hh)
+  exact ⟨g', h, C08_cnfterm g g' hv h⟩
+
+/-- `ChomskyNormalForm` returns for every valid hygienic grammar with a non-empty language, unless BIN runs
+out of numeric suffixes; BIN never diverges (`cnfBin_ne_diverge`) -/
+theorem C08_cnf_total (g : G) (hv : Valid g) (hh : Hygienic g) (hl : ∃ w, Language g w)
+    (hbin : binNamesSuffice g = true) :
+    ∃ g', cnf g = .ok g' ∧ SameLanguage g g' := by
+  obtain ⟨g', h⟩ := cnf_total hv hh hl (binNamesSuffice_spec hbin)
+  exact ⟨g', h, C08_cnf g g' hv h⟩
+
 /-
 Full statements not proved (correspondence + bounded-language oracle only):
 
-    theorem C08_cnfterm    (g g' : G) (hv : Valid g) (hh : Hygienic g) (h : cnfTerm g = .ok g') : SameLanguage g g'
-    theorem C08_cnfbin     (g g' : G) (hv : Valid g) (hh : Hygienic g) (h : cnfBin g = .ok g') : SameLanguage g g'
-      -- "fold a fresh non-terminal": each fresh `aₙ → a` / `Aᵢ → Xᵢ₊₁ Aᵢ₊₁` has exactly one production, so
-      -- unfolding it everywhere gives back the original production; Hygienic makes the names fresh
-    theorem C08_cnf        (g g' : G) (hv : Valid g) (hh : Hygienic g) (h : cnf g = .ok g') : SameLanguage g g'
-      -- composition START, TERM, BIN, DEL, UNIT, unreachable
     theorem C08_leftrec    (g g' : G) (hv : Valid g) (hh : Hygienic g) (h : elimLeftRec g = .ok g') : SameLanguage g g'
       -- substitution `Aᵢ → Aⱼ γ ↦ Aᵢ → δ γ` (unfold an occurrence) and the Arden step
       -- `A → A α | β  ↦  A → β A′, A′ → α A′ | ε` for a fresh `A′`
     theorem C08_leftfactor (g g' : G) (hv : Valid g) (hh : Hygienic g) (h : leftFactor g = .ok g') : SameLanguage g g'
       -- fold a fresh non-terminal `A′ → β₁ | … | βₙ` for the common first symbol
 -/
+
+/-! ## EliminateLeftRecursion and LeftFactor (proofs in `Proofs/C08LeftRec*.lean`, `Proofs/C08LeftFactor*.lean`) -/
+
+/-- `EliminateLeftRecursion` preserves the language (both inclusions), for every valid grammar on which the
+Model returns. -/
+theorem C08_leftrecursion (g g' : G) (hv : Valid g) (h : elimLeftRec g = .ok g') : SameLanguage g g' :=
+  AlgoVerif.C08.C08_leftrec g g' hv h
+
+/-- `LeftFactor` preserves the language (both inclusions), for every valid grammar on which the Model
+returns (i.e. unless the documented fresh-name panic occurs). -/
+theorem C08_leftfactoring (g g' : G) (hv : Valid g) (hh : Hygienic g) (h : leftFactor g = .ok g') :
+    SameLanguage g g' :=
+  AlgoVerif.C08.C08_leftfactor hv hh h
